@@ -1,5 +1,5 @@
 """C01 — convolution equals the ideal separable filter: plumbing clauses only (DESIGN §4 C01)."""
-from ..engines import axis, formulas
+from ..engines import axis, dispatch_rules, formulas
 from ..engines.tables import Switch, enum_variants
 from ..engines.validators import closure_return
 from ..facts import CheckError
@@ -268,3 +268,4 @@ def run(rep, tier):
         rep.call(window_clamp, rep, prog, "C01.window-clamp")
         rep.call(formulas.coefficients_formula, rep, prog, "C01.formula")
         rep.call(formulas.quantise, rep, prog, "C01.quantise")
+        rep.call(dispatch_rules.precision_reach, rep, prog, "C01.precision-reach")
